@@ -136,13 +136,16 @@ theorem dfltAttrs_ok (v : Version) (h : Head) : (dfltAttrs h).all (attrOK v) = t
   unfold dfltAttrs
   cases h.dflt <;> simp [attrOK]
 
+theorem descAttrs_ok (v : Version) (h : Head) : (descAttrs h).all (attrOK v) = true :=
+  all_attrOK_of_core _ _ (all_optAttr _ _ _ _ fun _ => attrCoreOK_strKey _ (s "description") _ (by decide) (by decide))
+
 theorem head30_ok (h : Head) (hr : h.required.Nodup) : (head30 h).all (attrOK .v30) = true := by
   simp only [head30, all_append, Bool.and_eq_true]
-  exact ⟨dfltAttrs_ok _ h, all_attrOK_of_core _ _ (head30r_ok h hr)⟩
+  exact ⟨⟨dfltAttrs_ok _ h, descAttrs_ok _ h⟩, all_attrOK_of_core _ _ (head30r_ok h hr)⟩
 
 theorem head31_ok (h : Head) (hr : h.required.Nodup) : (head31 h).all (attrOK .v31) = true := by
   simp only [head31, all_append, Bool.and_eq_true]
-  refine ⟨⟨?_, dfltAttrs_ok _ h⟩, all_attrOK_of_core _ _ (head31r_ok h hr)⟩
+  refine ⟨⟨⟨?_, dfltAttrs_ok _ h⟩, descAttrs_ok _ h⟩, all_attrOK_of_core _ _ (head31r_ok h hr)⟩
   exact all_attrOK_of_core _ _ (all_optAttr _ _ _ _ fun _ => attrCoreOK31_contentEncoding _)
 
 /-! ## wfSchema of a projected schema -/
